@@ -4,6 +4,7 @@
 //	crashchild <dir> set <key> <valuefile>
 //	crashchild <dir> delete <key>
 //	crashchild <dir> save-entity <name> <publen>
+//	crashchild <dir> get-entity <name> | list-entities
 //	crashchild <dir> transport           (hc.NewIPTransport on the directory: device, config load/save)
 package main
 
@@ -83,6 +84,23 @@ func main() {
 		if err != nil {
 			os.Exit(4)
 		}
+	case "get-entity":
+		// a look-up: nothing is written, and whatever the database does on the way must survive a kill as well
+		database, err := db.NewDatabase(dir)
+		if err != nil {
+			os.Exit(3)
+		}
+		mark("BEGIN")
+		database.EntityWithName(os.Args[3])
+		mark("END")
+	case "list-entities":
+		database, err := db.NewDatabase(dir)
+		if err != nil {
+			os.Exit(3)
+		}
+		mark("BEGIN")
+		database.Entities()
+		mark("END")
 	case "add-pairing":
 		// an administrator's add-pairing request as the /pairings endpoint hands it to the pairing controller
 		n, _ := strconv.Atoi(os.Args[4])
